@@ -240,14 +240,14 @@ theorem transparent_require_kwargs_bound_method_keyword_call (p : Params) (inner
     `PedanticCallWithArgsException` before anything runs — the instance is not mistaken for an argument any more -/
 theorem require_kwargs_bound_method_rejects_positional (p : Params) (inner : Fn) (a : Args) (w : World) (hc : inner.isCoro = false)
     (hf : p.guard.notFunction = false) (hm : p.guard.isMethodObj = true) (hw : p.guard.wantsArgs = false)
-    (hs : p.guard.isStatic = false) (hn : p.guard.nDecorators = 0) (hp : a.pos ≠ [])
-    (hfmt : (p.guard.messageArgs a).any (fun i => (p.traits i).reprRaises) = false) :
+    (hs : p.guard.isStatic = false) (hn : p.guard.nDecorators = 0) (hp : a.pos ≠ []) :
     invoke (.deco dRequireKwargs p inner) a w = (.exc (.lib "PedanticCallWithArgsException"), [], w) := by
   have hi := bound_method_is_no_instance_method p.guard hm
   have hl : 0 < a.pos.length := by cases h : a.pos with | nil => exact absurd h hp | cons x xs => simp
   have hr : p.guard.rejects a = some "PedanticCallWithArgsException" := by
     simp [Guard.rejects, Guard.trips, Guard.shouldHaveKwargs, Guard.argsWithoutSelf, hf, hi, hw, hs, hn, hl]
-  simp [dRequireKwargs, invoke, call, callLayer, select, findWrapper, runWrapper, execL, exec, mkFrame, bindVar, idsReprRaise, hc, hr, hfmt]
+  simp [dRequireKwargs, invoke, call, callLayer, select, findWrapper, runWrapper, execL, exec, mkFrame, bindVar, idsReprRaise, hc, hr,
+    refusalMessageFormatsRawArguments]
 
 /-- the call sites among the top-level statements of a wrapper body: whom it calls, with which positional and keyword arguments,
     awaited or not -/
@@ -1953,10 +1953,14 @@ theorem does_same_plain_function_coroutine_other :
     bodyObs (invoke (.deco dDoesSameAsFunction pAgree (.body b0)) a0 w0)
       = ⟨.obj ⟨100, 100⟩, [.body .wrapped 0 ⟨[(2, 11), (3, 12)], [], []⟩], 1⟩ := by decide
 
-/-- the refusal of a positional call by `require_kwargs` formats the refused arguments (`Args: {self.args_without_self}`): with an
-    argument whose `__repr__` raises, the caller gets that exception instead of `PedanticCallWithArgsException` -/
-theorem require_kwargs_refusal_formats_arguments :
-    (invoke (.deco dRequireKwargs { pBadArg with guard := ⟨false, false, false, 1, true, false, false⟩ } (.body b0)) a0 w0).1.tag = .exc (.lib "ReprErr") ∧
+/-- the refusal message of a positional call by `require_kwargs` / `@pedantic` goes through the never-raising description of the
+    arguments (generated fact, read from `FunctionCall.assert_uses_kwargs` on every run; since the repair c01300c) -/
+theorem refusal_message_through_display_wrapper : refusalMessageFormatsRawArguments = false := by decide
+
+/-- repaired (c01300c): the refusal of a positional call by `require_kwargs` is `PedanticCallWithArgsException` also when a refused
+    argument has a `__repr__` that raises (it used to be that exception: the message formatted the raw arguments) -/
+theorem fixed_require_kwargs_refusal_unformattable_argument :
+    (invoke (.deco dRequireKwargs { pBadArg with guard := ⟨false, false, false, 1, true, false, false⟩ } (.body b0)) a0 w0).1.tag = .exc (.lib "PedanticCallWithArgsException") ∧
     (invoke (.deco dRequireKwargs { p0 with guard := ⟨false, false, false, 1, true, false, false⟩ } (.body b0)) a0 w0).1.tag = .exc (.lib "PedanticCallWithArgsException") := by
   decide
 
